@@ -327,3 +327,74 @@ pub fn run_pattern(cfg: &Cfg, rep: &mut Report) {
         }
     }
 }
+
+/// Third stage (utf16 build): escape(s) searched through find_from_utf16 on the UTF-16 encoding
+/// of the haystack finds the occurrences of s, offsets translated (including the empty s at every
+/// character boundary of text with supplementary characters).
+#[cfg(feature = "utf16")]
+pub fn run_u16(cfg: &Cfg, rep: &mut Report) {
+    if cfg.replay.is_some() {
+        return;
+    }
+    let alphabet: Vec<char> = "\\^$.|?*+()[]{}-/aké\u{10000}\u{1F600}".chars().collect();
+    let mut strings: Vec<String> = vec![String::new()];
+    for a in &alphabet {
+        strings.push(a.to_string());
+        for b in &alphabet {
+            strings.push(format!("{}{}", a, b));
+        }
+    }
+    let filler: Vec<char> = "ax\u{1F600}é\u{10000} ".chars().collect();
+    for (si, s) in strings.iter().enumerate() {
+        let h = fnv64(s.as_bytes());
+        if !cfg.mine(h) {
+            continue;
+        }
+        if si % 64 == 0 {
+            rep.begin(si as u64 + 1, &J::obj().set("s", s.as_str()));
+        }
+        let esc = regress::escape(s);
+        let sc: Vec<char> = s.chars().collect();
+        let mut prng = Rng::new(h ^ cfg.seed);
+        let mut hays: Vec<String> = vec![String::new(), s.clone(), format!("a\u{1F600}b{}", s), format!("\u{10000}{}\u{10000}", s)];
+        for _ in 0..4 {
+            let mut t = String::new();
+            for _ in 0..prng.range(0, 3) {
+                t.push(*prng.pick(&filler));
+            }
+            t.push_str(s);
+            for _ in 0..prng.range(0, 3) {
+                t.push(*prng.pick(&filler));
+            }
+            hays.push(t);
+        }
+        for fs in ["", "u", "v", "s"] {
+            let Guarded::Ok(Ok(re)) = engine::compile(&engine::to_cps(&esc), Flags::from_str(fs), false) else { continue };
+            for t in &hays {
+                let expected = occurrences(&sc, t, &|a, b| a == b);
+                // byte offset -> utf16 offset
+                let mut b2u = vec![usize::MAX; t.len() + 1];
+                let mut u = 0;
+                for (b, ch) in t.char_indices() {
+                    b2u[b] = u;
+                    u += ch.len_utf16();
+                }
+                b2u[t.len()] = u;
+                let want: Vec<(usize, usize)> = expected.iter().map(|&(a, b)| (b2u[a], b2u[b])).collect();
+                let units: Vec<u16> = t.encode_utf16().collect();
+                let r = engine::guarded(FUEL, || re.find_from_utf16(&units, 0).take(10_000).map(|m| (m.start(), m.end())).collect::<Vec<_>>());
+                rep.eval(fnv64(format!("u16|{}|{}|{}", s, fs, t).as_bytes()), !expected.is_empty());
+                rep.inc("utf16_cases");
+                match r {
+                    Guarded::Ok(got) => {
+                        if got != want {
+                            rep.violation(violation("C18", "escape(s) searched through find_from_utf16 does not find exactly the occurrences of the literal s", J::obj().set("s", s.as_str()).set("escaped", esc.as_str()).set("flags", fs).set("haystack", t.as_str()).set("check", "c18u16"), format!("{:?}", got), format!("{:?} (UTF-16 offsets)", want)));
+                        }
+                    }
+                    Guarded::Fuel => rep.inconclusive("fuel"),
+                    Guarded::Panic(m) => rep.violation(violation("C18", "find_from_utf16 with escape(s) panicked", J::obj().set("s", s.as_str()).set("haystack", t.as_str()).set("check", "c18u16"), m, "no panic".into())),
+                }
+            }
+        }
+    }
+}
